@@ -159,8 +159,8 @@ def run(tier):
                     syms = {a.GetSymbol() for a in m.GetAtoms()} if m is not None else set()
                     if smi in ("[H][H]", "[H]") or smi in ("[BH4-]", "[AlH4-]", "[BH3-]C#N", "N#C[BH3-]"):
                         sig.add(side + ":H")
-                    elif smi == "[O]" or syms & {"Cr", "Mn"}:
-                        sig.add(side + ":O")
+                    elif smi == "[O]" or (side == "l" and syms & {"Cr", "Mn"}):
+                        sig.add(side + ":O")      # an oxidant among the reactants; its reduced form on the right is a by-product
             mem.append({"input": e["argstr"], "solved": e["solved"], "by": e["by"], "l": e["arg"]["l"], "r": e["arg"]["r"],
                         "add_l": ad["l"], "add_r": ad["r"], "reaction": e["reaction"], "redox_sig": sorted(sig)})
         if len(mem) >= 2:
